@@ -461,6 +461,10 @@ func msgCategory(m string) string {
 		return "expected"
 	case strings.HasPrefix(m, "unexpected "):
 		return "unexpected"
+	case strings.HasPrefix(m, "invalid "):
+		return "invalid"
+	case strings.HasPrefix(m, "declaration "):
+		return "declaration"
 	case strings.HasSuffix(m, "as integer"):
 		return "badint"
 	case strings.HasSuffix(m, "as float"):
